@@ -6,6 +6,7 @@ with their meaning for the Go code in `Props/C03.lean`.
 -/
 import RegexVerif.Model.Finders
 import RegexVerif.Lemmas.Scan
+import RegexVerif.Lemmas.BoyerMooreScan
 
 namespace RegexVerif.Lemmas.Finders
 open RegexVerif RegexVerif.Finders RegexVerif.Scan RegexVerif.Lemmas.Scan
@@ -475,21 +476,114 @@ theorem finderAnchors_rtl (lower : Nat → Nat) (a : Anchors) (bm : Option Bm) (
 
 /-! ### path 2: Boyer-Moore scan -/
 
-theorem finderBmScan_sound (lower : Nat → Nat) (b : Bm) (rtl : Bool) (text : List Nat)
+/-- `newBmPrefix` accepts the pattern (non-empty, no rune above U+FFFF): the compiled program has a
+    `Code.BmPrefix` only then -/
+def BmBuilt (b : Bm) (rtl : Bool) : Prop := (BoyerMoore.build b.pat b.ci rtl).isSome = true
+
+/-- the soundness of the SPECIFICATION of the scan (first position in scan order at which `IsMatch` holds) -/
+theorem finderBmScanSpec_sound (lower : Nat → Nat) (b : Bm) (rtl : Bool) (text : List Nat)
     (attempt : Nat → Option (Nat × Nat)) (hB : BmFact lower b rtl text attempt) :
-    FinderSound rtl text.length (finderBmScan lower b rtl text) attempt := by
+    FinderSound rtl text.length (finderBmScanSpec lower b rtl text) attempt := by
   cases rtl
   · apply finderSound_ltr
     intro pos hpos
-    simp only [finderBmScan, Bool.false_eq_true, if_false]
+    simp only [finderBmScanSpec, Bool.false_eq_true, if_false]
     apply ltrPost_of_opt _ _ _ hpos
     apply findUp_opt _ _ _ _ _ (by omega) hB
     intro p h1 h2; omega
   · apply finderSound_rtl
     intro pos hpos
-    simp only [finderBmScan, if_true]
+    simp only [finderBmScanSpec, if_true]
     apply rtlPost_of_opt
     exact findDown_opt _ _ _ _ hpos hB
+
+/-- **the Boyer-Moore scan computes its specification**: with the tables of `newBmPrefix` and the skip loop
+    of `Scan`, the finder returns the first position in scan order at which `IsMatch` holds, and gives up
+    exactly when there is none -/
+theorem finderBmScan_eq_spec (lower : Nat → Nat) (b : Bm) (rtl : Bool) (text : List Nat) (hW : BmBuilt b rtl)
+    (pos : Nat) (hpos : pos ≤ text.length) :
+    finderBmScan lower b rtl text pos = finderBmScanSpec lower b rtl text pos := by
+  obtain ⟨pat, ci⟩ := b
+  unfold BmBuilt at hW
+  simp only [] at hW
+  cases hb : BoyerMoore.build pat ci rtl with
+  | none => rw [hb] at hW; simp at hW
+  | some t =>
+    obtain ⟨hne, _, _, _, _, _⟩ := Lemmas.BoyerMoore.build_some pat ci rtl t hb
+    have hspec := Lemmas.BoyerMoore.scan_spec lower pat ci rtl t hb text pos 0 text.length (Nat.zero_le _) hpos (Nat.le_refl _)
+    unfold finderBmScan finderBmScanSpec
+    simp only [hb]
+    have hfit : ∀ q, occursAt (Bm.eq lower ⟨pat, ci⟩) pat text q = true → q + pat.length ≤ text.length :=
+      fun q h => occursAt_fits' _ pat text q hne h
+    cases rtl with
+    | false =>
+      simp only [Bool.false_eq_true, if_false]
+      congr 1
+      simp only [Bool.false_eq_true, if_false] at hspec
+      cases hs : BoyerMoore.scan lower t text pos 0 text.length with
+      | none =>
+        rw [hs] at hspec
+        cases hf : findUp (bmIsMatch lower ⟨pat, ci⟩ false text) (text.length + 1 - pos) pos with
+        | none => rfl
+        | some r =>
+          exfalso
+          obtain ⟨h1, h2, h3, _⟩ := findUp_some _ _ _ _ hf
+          have hfits := hfit r (by simpa [bmIsMatch] using h3)
+          rw [hspec r ⟨h1, hfits⟩] at h3; simp at h3
+      | some i =>
+        rw [hs] at hspec
+        obtain ⟨⟨x1, x2⟩, x3, x4⟩ := hspec
+        cases hf : findUp (bmIsMatch lower ⟨pat, ci⟩ false text) (text.length + 1 - pos) pos with
+        | none =>
+          exfalso
+          have := findUp_none _ _ _ hf i x1 (by omega)
+          rw [this] at x3; simp at x3
+        | some r =>
+          obtain ⟨h1, h2, h3, h4⟩ := findUp_some _ _ _ _ hf
+          congr 1
+          by_cases hlt : i < r
+          · have := h4 i x1 hlt; rw [this] at x3; simp at x3
+          · by_cases hgt : r < i
+            · have := x4 r ⟨h1, hgt⟩; rw [this] at h3; simp at h3
+            · omega
+    | true =>
+      simp only [if_true]
+      congr 1
+      simp only [if_true] at hspec
+      cases hs : BoyerMoore.scan lower t text pos 0 text.length with
+      | none =>
+        rw [hs] at hspec
+        cases hf : findDown (bmIsMatch lower ⟨pat, ci⟩ true text) pos with
+        | none => rfl
+        | some r =>
+          exfalso
+          obtain ⟨h1, h2, _⟩ := findDown_some _ _ _ hf
+          have hl : pat.length ≤ r := by
+            simp only [bmIsMatch, if_true, Bool.and_eq_true, decide_eq_true_eq] at h2; exact h2.1
+          rw [hspec r ⟨h1, by omega⟩] at h2; simp at h2
+      | some i =>
+        rw [hs] at hspec
+        obtain ⟨⟨x1, x2⟩, x3, x4⟩ := hspec
+        cases hf : findDown (bmIsMatch lower ⟨pat, ci⟩ true text) pos with
+        | none =>
+          exfalso
+          have := findDown_none _ _ hf i x1
+          rw [this] at x3; simp at x3
+        | some r =>
+          obtain ⟨h1, h2, h3⟩ := findDown_some _ _ _ hf
+          congr 1
+          by_cases hlt : i < r
+          · have := x4 r ⟨hlt, h1⟩; rw [this] at h2; simp at h2
+          · by_cases hgt : r < i
+            · have := h3 i hgt x1; rw [this] at x3; simp at x3
+            · omega
+
+theorem finderBmScan_sound (lower : Nat → Nat) (b : Bm) (rtl : Bool) (text : List Nat)
+    (attempt : Nat → Option (Nat × Nat)) (hW : BmBuilt b rtl) (hB : BmFact lower b rtl text attempt) :
+    FinderSound rtl text.length (finderBmScan lower b rtl text) attempt := by
+  intro pos hpos
+  rw [finderBmScan_eq_spec lower b rtl text hW pos hpos]
+  exact finderBmScanSpec_sound lower b rtl text attempt hB pos hpos
 
 /-! ### path 4: first-character set -/
 
@@ -1094,6 +1188,8 @@ def OptFacts (lower : Nat → Nat) (o : FindOpts) (text : List Nat) (attempt : N
 structure FactsSound (f : Facts) (text : List Nat) (textstart : Nat) (attempt : Nat → Option (Nat × Nat)) : Prop where
   anchors : f.anchors.any = true → AnchorFacts f.anchors text textstart attempt
   bm : ∀ b, f.bm = some b → BmFact f.lower b f.rtl text attempt
+  /-- well-formedness of the compiled program: a `Code.BmPrefix` exists only for a pattern `newBmPrefix` accepts -/
+  bmBuilt : f.anchors.any = false → ∀ b, f.bm = some b → BmBuilt b f.rtl
   opt : f.anchors.any = false → f.bm = none → shouldUse f.opts = true →
     f.rtl = false ∧ MinLenSound false text.length f.opts.minLen attempt ∧ OptFacts f.lower f.opts text attempt
   fc : f.anchors.any = false → f.bm = none → shouldUse f.opts = false →
@@ -1113,7 +1209,7 @@ theorem finderDefault_sound (f : Facts) (text : List Nat) (textstart : Nat) (att
     | some b =>
       apply finderSound_congr _ _ _ (finderBmScan f.lower b f.rtl text)
       · intro pos; simp [finderDefault, ha', hb]
-      · exact finderBmScan_sound _ _ _ _ _ (h.bm b hb)
+      · exact finderBmScan_sound _ _ _ _ _ (h.bmBuilt ha' b hb) (h.bm b hb)
     | none =>
       by_cases hsu : shouldUse f.opts = true
       · obtain ⟨hrtl, hM, hO⟩ := h.opt ha' hb hsu
